@@ -284,6 +284,29 @@ def truncate_at(tree, at):
     return work if found[0] == 'cut' else None
 
 
+def prefix_at(tree, at):
+    """The part of the tree that has been elaborated when statement number `at` raises and
+    nothing inside the block catches it: everything before it in program order."""
+    import copy
+    work = copy.deepcopy(tree)
+    n = [0]
+    hit = [False]
+
+    def rec(items):
+        for idx, it in enumerate(items):
+            n[0] += 1
+            if n[0] == at:
+                del items[idx:]
+                hit[0] = True
+                return True
+            if 'assign' not in it and rec(it['body']):
+                del items[idx + 1:]
+                return True
+        return False
+    rec(work)
+    return work if hit[0] else None
+
+
 def active_assignments(tree, pv):
     out = []
 
@@ -544,7 +567,14 @@ def elaborate(prog, pi, ctx, res, share_next=None, shared=None):
                              {'program': pi, 'assignment': at, 'exc': state.get('exc'),
                               'predicted': rej}, [])
         if outcome == 'user_exception':
-            return ('aborted', 'user_exception')
+            # the exception left the whole block and was handled outside it: what had been
+            # assigned before it is in force (the block is finalized on its way out), the design
+            # is kept and completed
+            pre = prefix_at(prog['tree'], fault['at']) if (rej is None and fault) else None
+            if pre is None or state.get('caught_user'):
+                return ('aborted', 'user_exception')
+            prog = dict(prog, tree=pre)
+            res.faults.hit('user_exception_left_the_block_design_kept')
         if rej and rej[1] == 'conflict':
             return Violation('conflict', 'conflicting_program_accepted',
                              {'program': pi, 'assignment': rej[0]}, [])
